@@ -793,7 +793,7 @@ func (env *Env) evalCall(e *SExpr) Val {
 		if isUntyped(x.T) {
 			return env.coerce(x, t)
 		}
-		if env.quant > 0 && strings.Contains(x.S, "q!") && sortOf(x.T) == "Slice" && sortOf(t) == "Str" {
+		if ((env.quant > 0 && strings.Contains(x.S, "q!")) || env.snap != nil) && sortOf(x.T) == "Slice" && sortOf(t) == "Str" {
 			return Val{S: env.content(x), T: t}
 		}
 		if env.quant > 0 && strings.Contains(x.S, "q!") {
@@ -974,6 +974,15 @@ func (env *Env) expand(cls []Clause) []expClause {
 // evalTrigger evaluates a trigger term: dom(m, k) and val(m, k) name the raw selects of a map; any other
 // expression must evaluate to a term without ite / boolean structure.
 func (env *Env) evalTrigger(t *SExpr) string {
+	if t.Op == "old" && len(t.Args) == 1 && env.hasOld {
+		// old(dom(m, k)): the raw select in the pre-state
+		n := env.child()
+		n.snap = env.oldSnap
+		if n.snap == nil {
+			n.snap = map[string]string{}
+		}
+		return n.evalTrigger(t.Args[0])
+	}
 	if t.Op == "call" && (t.Name == "dom" || t.Name == "val") && len(t.Args) == 2 {
 		m := env.eval(t.Args[0])
 		k := env.eval(t.Args[1])
@@ -1008,7 +1017,9 @@ func (env *Env) content(v Val) string {
 	if sortOf(v.T) == "Str" {
 		return v.S
 	}
-	if env.quant > 0 && strings.Contains(v.S, "q!") {
+	if (env.quant > 0 && strings.Contains(v.S, "q!")) || env.snap != nil {
+		// (inside old(): the bytes of the pre-state; the bare application is equal, by congruence, to the strings that the
+		// code formed from the same bytes)
 		slt, ok := v.T.Underlying().(*types.Slice)
 		if !ok {
 			env.errf("content of a non-slice")
